@@ -389,6 +389,12 @@ def run_slots(repo, R):
 
 
 def run(repo, R):
+    R.rule("INPUTS", "the public wrapper uses its parameters as given: no path replaces one by a filtered/re-ordered/scaled/defaulted copy")
+    from ..flow import check_wrapper_inputs
+    for _w in ['gbasis.evals.eval.evaluate_basis', 'gbasis.evals.eval_deriv.evaluate_deriv_basis']:
+        _wf = repo.func(_w)
+        R.note_function(_wf.qualname)
+        check_wrapper_inputs(repo, _wf, R)
     R.rule("DIRECT", "direct back-end: per-coordinate factors equal d/dx and d2/dx2 of x^n exp(-a x^2) for SYMBOLIC n (cases from the code's own masks), "
                      "zeroth-order factor, combination and contraction")
     R.rule("DEF", "definedness: in the branch selected for each n no power of the coordinate difference has a possibly negative exponent")
